@@ -101,14 +101,15 @@ class Model:
     """reference values of a program under the declared values, or under the
     values as the interfaces emit them (known truncation classes)"""
 
-    def __init__(self, P, asgen):
+    def __init__(self, P, asgen, cdigits=6):
         self.P, self.asgen = P, asgen
         t6 = (lambda x: MG.trunc_sig(x, 6)) if asgen else (lambda x: x)
         t14 = (lambda x: MG.trunc_sig(x, 14)) if asgen else (lambda x: x)
+        tc = (lambda x: MG.trunc_sig(x, cdigits)) if asgen else (lambda x: x)
         self.consts = [t6(v) for v in P.cst_values]
         self.statics = [t6(v) for v in P.sta_values]
-        self.defaults = {"generic": [t14(v) for v in P.par_values], "c": [t6(v) for v in P.par_values],
-                         "cxx": [t6(v) for v in P.par_values]}
+        self.defaults = {"generic": [t14(v) for v in P.par_values], "c": [tc(v) for v in P.par_values],
+                         "cxx": [tc(v) for v in P.par_values]}
 
     def value(self, iface, args, overrides):
         P = self.P
@@ -227,7 +228,7 @@ def _check_case(case):
             return Result(False, key="C37.crash", msg=err + "\n--- program ---\n" + P.text)
         sessions.append((callsB, metaB, resB))
     # ---- compare
-    decl, asgen = Model(P, False), Model(P, True)
+    decl, asgen, asgen14 = Model(P, False), Model(P, True), Model(P, True, 14)
     fails = []   # (known?, key, msg, failing call)
     errs = {}
     nval = 0
@@ -271,13 +272,21 @@ def _check_case(case):
                     fails.append((kk, "value explained by the truncated literal: " + desc + ", as-emitted reference %r" % ref2,
                                   fcall))
                     continue
+                if kk in (K_CPAR6, K_XPAR6) and P.prog.get("longcat") == "param15":
+                    # a c / c++ default written with 14 digits: the class of K_GPAR14 (15-17 digit literals)
+                    ref3, tol3, _ = asgen14.value(iface, args, m["ov"])
+                    if close(obs, ref3, tol3):
+                        fails.append((K_GPAR14, "value explained by the default rounded to 14 digits: " + desc +
+                                      ", as-emitted reference %r" % ref3, fcall))
+                        continue
             fails.append(("C37.value." + iface, desc, fcall))
     # all interfaces agree bit for bit (same parameter values)
     for (stage, args), d in bykey.items():
         vals = {}
         for i, (hv, ov) in d.items():
-            if stage == "defaults" and P.prog.get("longcat") in ("param", "param15"):
-                continue  # the default values themselves differ between interfaces (known classes above)
+            if stage == "defaults" and P.prog.get("longcat") in ("param", "param15") and (
+                    (i == "c" and K_CPAR6 in KNOWN) or (i == "cxx" and K_XPAR6 in KNOWN)):
+                continue  # the emitted default values differ between interfaces (known classes above)
             if i == "c" and stage != "defaults" and P.par_values:
                 continue  # no run-time override in the c interface
             vals[i] = hv
